@@ -169,6 +169,17 @@ func c12Rules() []c12Rule {
 	add("enum-number-with-custom-values/repeated", true, func(q func(string) string) *c12Frag {
 		return &c12Frag{Msgs: []*Message{M("ZqBad", F("zq_item", 1, "", EnumT(q("ZqStatus")), Rep(), EnumEnc("NUMBER")))}, Enums: []*Enum{customEnum()}, Off: c12Zq("zq_item")}
 	})
+	// the offending reference is not the FIRST use of the enum type (same message, an earlier sibling message, an earlier
+	// field with the harmless STRING encoding): the rule is per field, not per enum type
+	add("enum-number-with-custom-values/second-reference", true, func(q func(string) string) *c12Frag {
+		return &c12Frag{Msgs: []*Message{M("ZqBad", F("first", 1, "", EnumT(q("ZqStatus"))), F("zq_item", 2, "", EnumT(q("ZqStatus")), EnumEnc("NUMBER")))}, Enums: []*Enum{customEnum()}, Off: c12Zq("zq_item")}
+	})
+	add("enum-number-with-custom-values/after-string-encoding", true, func(q func(string) string) *c12Frag {
+		return &c12Frag{Msgs: []*Message{M("ZqBad", F("first", 1, "", EnumT(q("ZqStatus")), EnumEnc("STRING")), F("others", 2, "", EnumT(q("ZqStatus")), Rep()), F("zq_item", 3, "", EnumT(q("ZqStatus")), EnumEnc("NUMBER")))}, Enums: []*Enum{customEnum()}, Off: c12Zq("zq_item")}
+	})
+	add("enum-number-with-custom-values/earlier-message-uses-it", true, func(q func(string) string) *c12Frag {
+		return &c12Frag{Msgs: []*Message{M("ZqAaFirst", F("st", 1, "", EnumT(q("ZqStatus")))), M("ZqBad", F("id", 1, "string"), F("zq_item", 2, "", EnumT(q("ZqStatus")), EnumEnc("NUMBER")))}, Enums: []*Enum{customEnum()}, Off: c12Zq("zq_item")}
+	})
 	// ---- HTTP binding rules (go-http only; the offender is the RPC ZqCall and the variable/field zq_item) ----
 	http := func(id, verb, path string, fields func(q func(string) string) []*Field, aux ...*Message) {
 		add(id, false, func(q func(string) string) *c12Frag {
